@@ -1,9 +1,9 @@
 CONSTANTS
   MaxEdits = 2
-  MODE = "partnered"
-  NewNames <- NewNames3Def
+  MODE = "standard"
+  NewNames <- NewNamesDef
   UnitNames <- UnitNamesDef
-  DescKinds <- DescKindsAllDef
+  DescKinds <- DescKindsDef
   AttrOpts <- AttrOptsDef
   ORDER = "dfs"
   STRIP = TRUE
@@ -11,8 +11,9 @@ CONSTANTS
   TSV_UC_PROPS = FALSE
 SPECIFICATION Spec
 VIEW View
+INVARIANT WellFormed
 INVARIANT RoundTrip
 INVARIANT FormatsAgree
 INVARIANT MultiMergeRefuses
-INVARIANT EmitCase
-INVARIANT EmitBase
+INVARIANT WriterSelects
+INVARIANT XmlDeclarative
